@@ -66,11 +66,19 @@ func (p *plain) Run(ctx context.Context, r controller.Runtime, _ *zap.Logger) er
 type qprobe struct {
 	last       map[string]obs
 	lastMapped map[string]uint64 // version of B(id) seen by MapInput
+	lastB      map[string]uint64 // version of B(id) seen by Reconcile when B is a second primary input
+	twoPrimary bool
 	n          int
 }
 
 func (q *qprobe) Name() string { return "queue" }
 func (q *qprobe) Settings() controller.QSettings {
+	if q.twoPrimary {
+		return controller.QSettings{Inputs: []controller.Input{
+			{Namespace: tres.NS, Type: tres.TypeA, Kind: controller.InputQPrimary},
+			{Namespace: tres.NS, Type: tres.TypeB, Kind: controller.InputQPrimary},
+		}}
+	}
 	return controller.QSettings{Inputs: []controller.Input{
 		{Namespace: tres.NS, Type: tres.TypeA, Kind: controller.InputQPrimary},
 		{Namespace: tres.NS, Type: tres.TypeB, Kind: controller.InputQMapped},
@@ -78,6 +86,14 @@ func (q *qprobe) Settings() controller.QSettings {
 }
 func (q *qprobe) Reconcile(ctx context.Context, _ *zap.Logger, r controller.QRuntime, p resource.Pointer) error {
 	q.n++
+	if p.Type() == tres.TypeB {
+		if b, err := r.Get(ctx, resource.NewMetadata(tres.NS, tres.TypeB, p.ID(), resource.VersionUndefined)); err == nil {
+			q.lastB[p.ID()] = b.Metadata().Version().Value()
+		} else {
+			delete(q.lastB, p.ID())
+		}
+		return nil
+	}
 	q.last[p.ID()] = observe(ctx, r, p.ID())
 	return nil
 }
@@ -130,7 +146,7 @@ func write(ctx context.Context, st state.State, mappedAllowed bool) {
 }
 
 type variant struct {
-	cached, byID, destroyReady, mapped, dynamic bool
+	cached, byID, destroyReady, mapped, dynamic, twoPrimary bool
 }
 
 func assembled(v variant, nBeforeMax, nw int) {
@@ -155,14 +171,14 @@ func assembled(v variant, nBeforeMax, nw int) {
 		// the input is declared only later, by the running controller; nobody else watches the kind
 		pc.inputs, pc.later = nil, []controller.Input{in}
 	}
-	qc := &qprobe{last: map[string]obs{}, lastMapped: map[string]uint64{}}
+	qc := &qprobe{last: map[string]obs{}, lastMapped: map[string]uint64{}, lastB: map[string]uint64{}, twoPrimary: v.twoPrimary}
 	verif.Assert(rt.RegisterController(pc) == nil, "plain controller registered")
 	if !v.dynamic {
 		verif.Assert(rt.RegisterQController(qc) == nil, "queue controller registered")
 	}
 	nBefore := verif.Choose("writesBeforeStart", nBeforeMax+1)
 	for i := 0; i < nBefore; i++ {
-		write(ctx, st, false)
+		write(ctx, st, v.twoPrimary)
 	}
 	go rt.Run(ctx) //nolint:errcheck
 	up := false // the runtime has settled at least once since start (its watches are established)
@@ -173,7 +189,7 @@ func assembled(v variant, nBeforeMax, nw int) {
 			up = true
 		}
 		// a mapped input is only notified for changes after its watch is established
-		write(ctx, st, v.mapped && up)
+		write(ctx, st, v.mapped && up || v.twoPrimary)
 	}
 	verif.Quiesce() // the system goes quiet
 	for _, id := range ids {
@@ -193,7 +209,12 @@ func assembled(v variant, nBeforeMax, nw int) {
 		} else if lo, seen := qc.last[id]; seen {
 			verif.Assert(!lo.found, "queue controller: a destroyed item was last seen as gone")
 		}
-		if b, berr := st.Get(ctx, resource.NewMetadata(tres.NS, tres.TypeB, id, resource.VersionUndefined)); berr == nil {
+		if b, berr := st.Get(ctx, resource.NewMetadata(tres.NS, tres.TypeB, id, resource.VersionUndefined)); berr == nil && v.twoPrimary {
+			verif.Assert(qc.lastB[id] == b.Metadata().Version().Value(), "queue controller: every primary input kind is listed at start-up and followed afterwards")
+			if nBefore > 0 {
+				verif.Cover("second primary kind pre-existing")
+			}
+		} else if berr == nil {
 			verif.Assert(qc.lastMapped[id] == b.Metadata().Version().Value(), "a mapped input change reaches the mapper with the current state")
 			verif.Cover("mapped input seen")
 		}
@@ -233,7 +254,7 @@ func H_Assembled() {
 func H_AssembledKinds() {
 	nw := 1 + moreWrites()
 	v := variant{}
-	switch verif.Choose("variant", 4) {
+	switch verif.Choose("variant", 5) {
 	case 0:
 		v.cached = true
 	case 1:
@@ -242,9 +263,11 @@ func H_AssembledKinds() {
 		v.mapped = true
 	case 3:
 		v.dynamic = true
+	case 4:
+		v.twoPrimary = true
 	}
 	nBefore := 0
-	if v.destroyReady || v.cached || v.dynamic {
+	if v.destroyReady || v.cached || v.dynamic || v.twoPrimary {
 		nBefore = 1
 	}
 	assembled(v, nBefore, nw+b2i(v.mapped || v.destroyReady || v.dynamic))
